@@ -3,7 +3,7 @@ import base64
 import hashlib
 import json
 import gen
-from histcheck import chain_case
+from histcheck import chain_case, run_cases
 from props.evalcommon import standard_run, standard_replay, small_scope
 from wire import go_float_str, from_wire, to_wire
 
@@ -101,6 +101,17 @@ SPECS = gen.ENCODES + ["json", "yaml", "toml"]
 
 
 def gen_case(rng):
+    r0 = rng.random()
+    if r0 < 0.06:
+        # several $encodes of one format over look-alike values in ONE document (the model is the judge)
+        d = gen.lookalike_encodes(rng)
+        c = chain_case([d], env={}, tail=("outdocs",))
+        if "l" not in d and "$repeat" not in d:
+            c["together"] = d           # oracle: each entry evaluates as it does alone
+            c["noshrink"] = True
+        return c
+    if r0 < 0.1:
+        return chain_case([gen.nested_encode_doc(rng)], env={}, tail=("outdocs",))
     v = rng.choice(VALUES)
     k = rng.randint(1, 3)
     spec = rng.choice(SPECS) if rng.random() < 0.5 else [rng.choice(SPECS) for _ in range(k)]
@@ -119,7 +130,35 @@ def gen_case(rng):
     return c
 
 
+def oracle_together(case, go):
+    """several $encodes in one document: each entry must come out exactly as it does in a document of its own"""
+    last = go["res"][-1]
+    d = case["together"]
+    singles = run_cases([chain_case([{k: v}], env={}, tail=("outdocs",)) for k, v in sorted(d.items())])
+    want, bad = {}, False
+    for (k, _), r in zip(sorted(d.items()), singles):
+        l = r[1]["res"][-1] if r[1] and "res" in r[1] else {}
+        if "ok" not in l:
+            bad = True
+            continue
+        for doc in l["ok"]:
+            want.update(from_wire(doc))
+    if bad:
+        return None if "err" in last else "a document is accepted although one of its $encode entries is rejected on its own"
+    if "ok" not in last:
+        return f"every $encode entry evaluates on its own, the document holding them together is rejected: {last.get('err')}"
+    got = {}
+    for doc in last["ok"]:
+        got.update(from_wire(doc))
+    if got != want:
+        ks = [k for k in want if got.get(k) != want[k]]
+        return f"$encode entries {ks} come out differently next to their look-alike siblings than alone"
+    return None
+
+
 def oracle(case, go, mo):
+    if "together" in case and go and "res" in go:
+        return oracle_together(case, go)
     if "spec" not in case or not go or "res" not in go:
         return None
     last = go["res"][-1]
